@@ -37,6 +37,10 @@ STRING_VALUES = ["", "x", "a:b", "0:0:0:0:0", "1.0", "/tmp/some/path", "./", "65
                  "deadbeef", "-1", "é", "漢字", "a/b c", "tab\tsep", "x,y", "1;2;3", "%s%n", "'quoted'", "\"dq\"", "\\", "long" * 50]
 
 
+VALIDATED = (set(xbt1.ENUMS) | set(xbt1.INT_RANGES) | xbt1.MC_GATED | set(xbt1.MODULE_FLAGS)
+             | {"model-check/setenv", "model-check/watch", "smpi/host-speed", "smpi/comp-adjustment-file"})
+
+
 def int_strings(name):
     extra = []
     if name in xbt1.INT_RANGES:
@@ -120,9 +124,12 @@ def one_op(draw, items, aliases, pure=False):
         typ = draw(st.sampled_from(["int", "double", "boolean", "string"]))
         real = None
     else:
+        validated = [n for n in names if n in VALIDATED]
         if c <= 3 and alias_names:               # through an alias
             nm = draw(st.sampled_from(alias_names))
             real = aliases[nm]
+        elif c <= 11 and validated:              # items with a validating callback are a minority of the registry: favour them
+            nm = real = draw(st.sampled_from(validated))
         else:
             nm = real = draw(st.sampled_from(names))
         typ = items[real]["type"]
@@ -164,7 +171,7 @@ def cases(draw, items, aliases):
         # store-only items (and unknown names): no setting can end the process, the case runs without a fork
         n = draw(st.integers(1, 30))
         ops = draw(st.lists(one_op(items, aliases, True), min_size=n, max_size=n))
-        return {"ops": glue(draw, ops)}
+        return {"ops": glue(draw, ops, items, aliases)}
     n = draw(st.integers(1, 14))
     ops = draw(st.lists(one_op(items, aliases), min_size=n, max_size=n))
     replay_first = draw(st.integers(0, 3)) == 0
@@ -172,6 +179,9 @@ def cases(draw, items, aliases):
         ops.insert(0, {"how": draw(st.sampled_from(["parse", "string", "typed", "argv"])), "name": "model-check/replay", "type": "string",
                        "value": draw(st.sampled_from(["1;2;3", "0", "x"]))})
     # only the first op can go through the command line of the Engine constructor
+    if draw(st.integers(0, 3)) == 0 and not any(ch in str(ops[0]["value"]) for ch in SEPARATORS) and ops[0]["how"] in ("parse", "string") \
+            and isinstance(ops[0]["value"], str):
+        ops[0]["how"] = "argv"
     for i, op in enumerate(ops):
         if op["how"] == "argv" and i > 0:
             op["how"] = "parse"
@@ -183,23 +193,28 @@ def cases(draw, items, aliases):
         ops = [ops[0]]
     else:
         ops = safe + risky[:1]
-    return {"ops": glue(draw, ops)}
+    return {"ops": glue(draw, ops, items, aliases)}
 
 
-def glue(draw, ops):
-    """now and then glue consecutive --cfg settings into one string, as "--cfg=a:1,b:2" does"""
+def glue(draw, ops, items, aliases):
+    """now and then glue consecutive --cfg settings into one string, as "--cfg=a:1,b:2" does (only settings whose outcome is
+    certain: stored, or refused by an exception)"""
     if draw(st.integers(0, 3)) == 0:
         glued = []
-        for op in ops:
-            if (op["how"] == "parse" and glued and glued[-1]["how"] in ("parse", "multi") and len(glued[-1].get("subs", [0])) < 4
+        pred = predict(ops, items, aliases)
+        for op, pr in zip(ops, pred):
+            if (op["how"] == "parse" and pr[0] in ("ok", "exc") and glued and glued[-1].get("gluable") and glued[-1]["how"] in ("parse", "multi") and len(glued[-1].get("subs", [0])) < 4
                     and op["name"] and not any(ch in op["name"] for ch in SEPARATORS + ":")):
                 last = glued[-1]
                 if last["how"] == "parse":
-                    last = glued[-1] = {"how": "multi", "subs": [last], "seps": []}
+                    last.pop("gluable", None)
+                    last = glued[-1] = {"how": "multi", "subs": [last], "seps": [], "gluable": True}
                 last["subs"].append(op)
                 last["seps"].append(draw(st.sampled_from([",", " ", "\t", "\n", ", ", ",,", " , "])))
             else:
-                glued.append(op)
+                glued.append(dict(op, gluable=True) if op["how"] == "parse" and pr[0] in ("ok", "exc") else op)
+        for g in glued:
+            g.pop("gluable", None)
         ops = glued
     return ops
 
@@ -299,8 +314,8 @@ def bound_expect(real, val, bound):
 
 class C48(core.Prop):
     id = "C48"
-    drivers = ["config_driver", "config_argv_driver"]
-    sizes = {"quick": 2500, "thorough": 60000}
+    drivers = ["config_driver", "config_argv_driver", "config_inproc_driver"]
+    sizes = {"quick": 1200, "thorough": 60000}
     max_workers = 4
     technique = ("property-based testing (Hypothesis): reference parsers (C strtol base 0 / strtod / the eight boolean spellings) and a table "
                  "of the documented validations, against set_parse / set_as_string / set_value<T> / sg_cfg_set_* / --cfg on a real Engine")
@@ -326,7 +341,7 @@ class C48(core.Prop):
                    "Configuring_SimGrid.rst and the items' help texts; items not in the table get an 'either stored or cleanly rejected' verdict",
                    "get_value<T> is only called with the item's registered type (another T is undefined behaviour by design)",
                    "values with blanks or commas cannot be given through --cfg (set_parse splits on them): they go through the API"]
-    ready = False
+    ready = True
 
     def strategy(self, tier):
         items, aliases = registry()
@@ -494,19 +509,65 @@ class C48(core.Prop):
             return v
 
         # ---- the other ops
-        cur_step = -1
-        multi_failed = False
         for op, sidx, pos in flat:
-            if sidx != cur_step:
-                cur_step, multi_failed = sidx, False
-            if multi_failed:
+            if req["ops"][sidx]["how"] == "parse_raw":
+                # several settings glued in one --cfg string: applied in order, the first refused one throws and ends the string
+                if pos > 0:
+                    continue
+                subs = [o for o, s2, _p in flat if s2 == sidx]
+                exps = []
+                rp = replay
+                for o in subs:
+                    e = expect_op(o, items, aliases, rp, None)
+                    exps.append(e)
+                    if e[0] == "ok" and e[1] == "model-check/replay" and e[2] != "":
+                        rp = True
+                if any(e[0] not in ("ok", "exc") for e in exps):
+                    oc.invalid = True          # (the registry changed since this case was generated)
+                    return oc
+                f = next((i for i, e in enumerate(exps) if e[0] == "exc"), None)
+                for o, e in zip(subs, exps):
+                    oc.labels.append("route:multi")
+                    oc.labels.append("expect:" + e[0] + (":" + e[3].split(":")[0] if e[0] != "ok" else ""))
+                    if o["name"] in aliases:
+                        used_alias = True
+                        oc.labels.append("alias")
+                    if self.is_boundary(o, items[e[1]]["type"] if e[1] else None, e[1]):
+                        boundary = True
+                        oc.labels.append("boundary-value")
+                st_ = steps.get(sidx)
+                text = req["ops"][sidx]["value"]
+                if st_ is None:
+                    death("ok" if f is None else "exc", False, ("glued --cfg string %r" % text, exps[f or 0][1] or "<unknown>"))
+                    return self.finish(oc, boundary, used_alias, had_reject)
+                if f is None and not st_["ok"]:
+                    oc.bad("valid-setting-rejected:%s" % exps[0][1], "glued --cfg string %r threw %s (%s) although every setting is valid"
+                           % (text, st_.get("exc"), st_.get("msg")))
+                    return oc
+                if f is not None:
+                    had_reject = True
+                    if st_["ok"]:
+                        oc.bad("invalid-setting-accepted:%s:%s" % (exps[f][1] or "<unknown>", exps[f][3].split(":")[0]),
+                               "glued --cfg string %r was accepted although its setting #%d must be refused (%s)" % (text, f, exps[f][3]))
+                        return oc
+                for o, e in zip(subs[:f] if f is not None else subs, exps):
+                    expected[e[1]] = e[2]
+                    if e[1] == "model-check/replay" and e[2] != "":
+                        replay = True
+                for o, e in zip(subs, exps):
+                    if e[1] and expected.get(e[1]) is not UNKNOWN:
+                        got = st_.get("read", {}).get(e[1])
+                        if not same(items[e[1]]["type"], got, expected[e[1]]):
+                            oc.bad("wrong-value-stored:%s" % e[1], "after the glued --cfg string %r (settings before #%s applied) "
+                                   "get_value(%s) = %s, the reference says %r" % (text, f, e[1], show(items[e[1]]["type"], got), expected[e[1]]))
+                            return oc
                 continue
             e = expect_op(op, items, aliases, replay, None)
             kind, real, val, why = e
             if kind == "invalid":
                 oc.invalid = True
                 return oc
-            oc.labels.append("route:" + ("multi" if req["ops"][sidx]["how"] == "parse_raw" else op["how"]))
+            oc.labels.append("route:" + op["how"])
             oc.labels.append("expect:" + kind + (":" + why.split(":")[0] if kind != "ok" else ""))
             typ = items[real]["type"] if real else None
             if real:
@@ -518,43 +579,24 @@ class C48(core.Prop):
                 boundary = True
                 oc.labels.append("boundary-value")
             st_ = steps.get(sidx)
-            ismulti = req["ops"][sidx]["how"] == "parse_raw"
-            nsubs = sum(1 for _o, s, _p in flat if s == sidx)
             if st_ is None:
-                # the process ended during this driver step (for a glued string: at this or a later setting of the string)
-                if ismulti and kind == "ok" and pos < nsubs - 1:
-                    # cannot tell which setting of the glued string ended the process: judge at the first non-ok one
-                    if real:
-                        expected[real] = UNKNOWN
-                    continue
                 had_reject = True
                 death(kind, kind in ("reject", "open", "open-reject", "exit0"), desc(op))
                 return self.finish(oc, boundary, used_alias, had_reject)
             failed = not st_["ok"]
-            if ismulti:
-                # one driver step for several settings: an exception stops the string at the first failing setting
-                if failed and kind == "ok":
-                    # is a later setting of the same string expected to fail?  then this one must have been applied
-                    later_fail = any(expect_op(o2, items, aliases, replay)[0] != "ok" for o2, s2, p2 in flat if s2 == sidx and p2 > pos)
-                    if not later_fail:
-                        oc.bad("valid-setting-rejected:%s" % real, "glued --cfg string %r threw %s (%s) although every setting is valid"
-                               % (req["ops"][sidx]["value"], st_.get("exc"), st_.get("msg")))
-                        return oc
-                    failed = False
-                elif failed and kind != "ok":
-                    multi_failed = True
-                elif not failed and kind in ("exc", "reject", "open-reject"):
-                    pass
             got = st_.get("read", {}).get(real) if real else None
             if kind == "ok":
                 if failed:
-                    oc.bad("valid-setting-rejected:%s" % real, "%s threw %s (%s); the documented grammar/validation accepts it (value %r)"
+                    # a std::range_error comes from the value parsers (root cause: the grammar of the type), anything else from the item
+                    where = "type=" + typ if st_.get("exc") == "std::range_error" and xbt1.validate(real, val, replay, items[real]) != "reject" \
+                        and real in xbt1.PLAIN else real
+                    oc.bad("valid-setting-rejected:%s" % where, "%s threw %s (%s); the documented grammar/validation accepts it (value %r)"
                            % (desc(op)[0], st_.get("exc"), st_.get("msg"), val))
                     return oc
                 expected[real] = to_driver(typ, val)
                 if real == "model-check/replay" and val != "":
                     replay = True
-                if not ismulti or pos == nsubs - 1 or not any(resolve(o2["name"], items, aliases) == real for o2, s2, p2 in flat if s2 == sidx and p2 > pos):
+                if True:
                     bnd = st_.get("bound", {})
                     if real in bnd:
                         want_b = bound_expect(real, val, bnd)
@@ -574,7 +616,8 @@ class C48(core.Prop):
             elif kind == "exc":
                 had_reject = True
                 if not failed:
-                    oc.bad("invalid-setting-accepted:%s:%s" % (real or "<unknown>", why.split(":")[0]),
+                    oc.bad("invalid-setting-accepted:%s:%s" % (("type=" + typ) if real and why.startswith("unparsable") else (real or "<unknown>"),
+                                                               why.split(":")[0]),
                            "%s was accepted (item now %s); expected a C++ exception (%s)" % (desc(op)[0], show(typ, got) if real else "-", why))
                     return oc
                 oc.labels.append("exc:" + st_.get("exc", "?"))
@@ -601,7 +644,7 @@ class C48(core.Prop):
                 else:
                     oc.labels.append("open:stored")
                     if val is not None and not same(typ, got, val):
-                        oc.bad("wrong-value-stored:%s" % real, "%s was accepted (allowed) but get_value<%s>(%s) = %s, the C reading is %r"
+                        oc.bad("wrong-value-stored:type=%s:c-spelling" % typ, "%s was accepted (allowed) but get_value<%s>(%s) = %s, the C reading is %r"
                                % (desc(op)[0], typ, real, show(typ, got), val))
                         return oc
                     expected[real] = pyval(typ, got)
